@@ -448,17 +448,17 @@ def lower(prog, ast):
         JK = {ev(prog, 'JUMP_NONE'): 'none', ev(prog, 'JUMP_JMP'): 'jmp', ev(prog, 'JUMP_JNZ'): 'jnz', ev(prog, 'JUMP_RET'): 'ret'}
         seen = set()
         while b is not None:
-            if id(b.obj) in seen: raise Unsupported('block list is cyclic')
-            seen.add(id(b.obj))
+            if b.obj.id in seen: raise Unsupported('block list is cyclic')
+            seen.add(b.obj.id)
             insts = getattr(b.obj, 'pylist', {}).get(b.path + ('insts',), [])
             evals = [i_.obj.ilabel for i_ in insts]
             jk = JK[b.obj.f[b.path + ('jump', 'kind')]]
             arg = b.obj.f.get(b.path + ('jump', 'arg'))
             if hasattr(b.obj, 'pyswitch'):
                 cases, dflt = b.obj.pyswitch
-                term = ('switch', {k: id(v_.obj) for k, v_ in cases.items()}, id(dflt.obj))
-            elif jk == 'jmp': term = ('jmp', id(b.obj.f[b.path + ('jump', 'blk', 0)].obj))
-            elif jk == 'jnz': term = ('jnz', id(b.obj.f[b.path + ('jump', 'blk', 0)].obj), id(b.obj.f[b.path + ('jump', 'blk', 1)].obj))
+                term = ('switch', {k: v_.obj.id for k, v_ in cases.items()}, dflt.obj.id)
+            elif jk == 'jmp': term = ('jmp', b.obj.f[b.path + ('jump', 'blk', 0)].obj.id)
+            elif jk == 'jnz': term = ('jnz', b.obj.f[b.path + ('jump', 'blk', 0)].obj.id, b.obj.f[b.path + ('jump', 'blk', 1)].obj.id)
             elif jk == 'ret':
                 lbl = None
                 if isinstance(arg, Ptr):
@@ -468,7 +468,7 @@ def lower(prog, ast):
                 term = ('ret', lbl)
             else: term = ('none',)
             nx = b.obj.f.get(b.path + ('next',))
-            blocks[id(b.obj)] = {'evals': evals, 'term': term, 'next': id(nx.obj) if nx is not None else None}
+            blocks[b.obj.id] = {'evals': evals, 'term': term, 'next': nx.obj.id if nx is not None else None}
             b = nx
         # every jump target must be a placed block
         for bid, blk in blocks.items():
@@ -476,7 +476,7 @@ def lower(prog, ast):
             tg = [t[1]] if t[0] == 'jmp' else [t[1], t[2]] if t[0] == 'jnz' else (list(t[1].values()) + [t[2]] if t[0] == 'switch' else [])
             for x in tg:
                 if x not in blocks: raise Terminal('badgraph', 'a jump targets a block that was never placed')
-        return {'start': id(start.obj), 'blocks': blocks}
+        return {'start': start.obj.id, 'blocks': blocks}
     runs = explore(prog, runner, {}, max_runs=4, on_unsupported='keep')
     if len(runs) != 1:
         return 'unsupported', '%d paths' % len(runs)
